@@ -633,7 +633,10 @@ fn resolve_css<'a>(
         sheet.parse_more(style_sheet);
     }
 
-    for node in xml.descendants().filter(|n| n.has_tag_name("style")) {
+    for node in xml
+        .descendants()
+        .filter(|n| n.has_tag_name((SVG_NS, "style")))
+    {
         match node.attribute("type") {
             Some("text/css") => {}
             Some(_) => continue,
